@@ -521,10 +521,9 @@ var _ uuid.UUID
 //@ at call Conn).Dial
 //@ set dialled = $ret0
 //@ end
-//@ requires [wf] connBook(this.clusterConn) && forall j uint64 :: has(this.dataManagerClients, j) ==> !isnil(this.dataManagerClients[j])
 //@ ensures [client-xor-error] isnil(ret1) != isnil(ret0)
-//@ ensures [C20 client-over-the-current-connection] isnil(ret1) && !old(has(this.dataManagerClients, nodeId)) ==> dialled != nil && dmStubOver(ret0) == dialled && has(this.clusterConn.conns, nodeId) && this.clusterConn.conns[nodeId] == dialled
-//@ ensures [C20 C11 unknown-node-is-an-error] !old(has(this.dataManagerClients, nodeId)) && !old(has(this.clusterConn.conns, nodeId)) && !has(this.clusterConn.addresses, nodeId) ==> !isnil(ret1)
+//@ ensures [C20 client-over-the-current-connection] old(connBook(this.clusterConn)) && isnil(ret1) && !old(has(this.dataManagerClients, nodeId)) ==> dialled != nil && dmStubOver(ret0) == dialled && has(this.clusterConn.conns, nodeId) && this.clusterConn.conns[nodeId] == dialled
+//@ ensures [C20 C11 unknown-node-is-an-error] old(connBook(this.clusterConn)) && !old(has(this.dataManagerClients, nodeId)) && !old(has(this.clusterConn.conns, nodeId)) && !has(this.clusterConn.addresses, nodeId) ==> !isnil(ret1)
 //@ modifies map(this.clusterConn.conns)
 
 //@ func (*storage.Dataset).getNodeSearchClient
@@ -534,10 +533,9 @@ var _ uuid.UUID
 //@ at call Conn).Dial
 //@ set dialled = $ret0
 //@ end
-//@ requires [wf] connBook(this.clusterConn) && forall j uint64 :: has(this.searchClients, j) ==> !isnil(this.searchClients[j])
 //@ ensures [client-xor-error] isnil(ret1) != isnil(ret0)
-//@ ensures [C20 client-over-the-current-connection] isnil(ret1) && !old(has(this.searchClients, nodeId)) ==> dialled != nil && searchStubOver(ret0) == dialled && has(this.clusterConn.conns, nodeId) && this.clusterConn.conns[nodeId] == dialled
-//@ ensures [C20 unknown-node-is-an-error] !old(has(this.searchClients, nodeId)) && !old(has(this.clusterConn.conns, nodeId)) && !has(this.clusterConn.addresses, nodeId) ==> !isnil(ret1)
+//@ ensures [C20 client-over-the-current-connection] old(connBook(this.clusterConn)) && isnil(ret1) && !old(has(this.searchClients, nodeId)) ==> dialled != nil && searchStubOver(ret0) == dialled && has(this.clusterConn.conns, nodeId) && this.clusterConn.conns[nodeId] == dialled
+//@ ensures [C20 unknown-node-is-an-error] old(connBook(this.clusterConn)) && !old(has(this.searchClients, nodeId)) && !old(has(this.clusterConn.conns, nodeId)) && !has(this.clusterConn.addresses, nodeId) ==> !isnil(ret1)
 //@ modifies map(this.clusterConn.conns)
 
 //@ func (*storage.partition).isOnNode
